@@ -62,6 +62,12 @@ def _gen(g):
         return {"kind": "stopseq", "config": g.choice(["S", "S", "U"]), "delays": [g.int(0, 3) for _ in range(g.int(0, 4))],
                 "blockers": [g.chance(30) for _ in range(nb)], "stops": [g.bool() for _ in range(g.int(1, 3))],
                 "gaps": [g.int(0, 3) for _ in range(3)], "threads": 1, "free": False, "exit": "normal", "steps": []}
+    if g.chance(6):
+        # the caller thread is an AnyIO worker thread of ANOTHER event loop (blocking library code run through
+        # to_thread.run_sync that opens a portal of its own)
+        return {"kind": "fromworker", "config": g.choice(["S", "S", "U"]), "delays": [],
+                "ops": [g.choice(["call_sync", "call_async", "soon_value", "start_task"]) for _ in range(g.int(1, 5))],
+                "threads": 1, "free": False, "exit": "normal", "steps": []}
     nt = g.int(1, 3)
     steps = []
     ids = 0
@@ -557,10 +563,66 @@ def run_stopseq(case, out, stats):
             out.bad("future-not-done-at-exit", "stop-from-task", f"future {i}")
 
 
+def run_fromworker(case, out, stats):
+    ran_on = {}
+    res = {}
+
+    def sync_fn(i):
+        ran_on[i] = threading.get_ident()
+        return ("sync", i)
+
+    async def async_fn(i):
+        ran_on[i] = threading.get_ident()
+        await asyncio.sleep(0)
+        return ("async", i)
+
+    async def starter(i, *, task_status):
+        ran_on[i] = threading.get_ident()
+        task_status.started(("s", i))
+        await asyncio.sleep(0)
+        return ("task", i)
+
+    def blocking_library_code():
+        with start_blocking_portal() as portal:
+            res["portal_thread"] = portal.call(threading.get_ident)
+            for i, op in enumerate(case["ops"]):
+                if op == "call_sync":
+                    res[i] = portal.call(sync_fn, i)
+                elif op == "call_async":
+                    res[i] = portal.call(async_fn, i)
+                elif op == "soon_value":
+                    res[i] = portal.start_task_soon(async_fn, i).result(10)
+                else:
+                    fut, val = portal.start_task(starter, i)
+                    res[i] = (val, fut.result(10))
+
+    async def outer():
+        res["outer_thread"] = threading.get_ident()
+        with anyio.fail_after(15):
+            await anyio.to_thread.run_sync(blocking_library_code)
+
+    if case["config"] == "U":
+        import uvloop
+        anyio.run(outer, backend_options={"loop_factory": uvloop.new_event_loop})
+    else:
+        anyio.run(outer)
+    stats["caller_is_worker_thread_of_another_loop"] += 1
+    want = {"call_sync": lambda i: ("sync", i), "call_async": lambda i: ("async", i), "soon_value": lambda i: ("async", i),
+            "start_task": lambda i: (("s", i), ("task", i))}
+    for i, op in enumerate(case["ops"]):
+        if res.get(i) != want[op](i):
+            out.bad("wrong-result-routed", "fromworker:" + op, f"{case}: {res.get(i)!r}")
+        if ran_on.get(i) != res.get("portal_thread"):
+            out.bad("ran-on-wrong-thread", "fromworker:" + op,
+                    f"{case}: callable {i} ran in thread {ran_on.get(i)} (portal thread {res.get('portal_thread')}, "
+                    f"thread of the caller's own loop {res.get('outer_thread')})")
+
+
 def run_case(case) -> Outcome:
     out = Outcome()
     stats = dict.fromkeys(["calls_in_flight_at_stop", "future_cancelled_while_parked", "watchdog_rerun",
-                           "steps_after_exit", "stop_from_task", "stop_called_twice"], 0)
+                           "steps_after_exit", "stop_from_task", "stop_called_twice",
+                           "caller_is_worker_thread_of_another_loop"], 0)
     for attempt in range(3):
         trial = Outcome()
         box = {}
@@ -569,6 +631,8 @@ def run_case(case) -> Outcome:
             try:
                 if case.get("kind") == "stopseq":
                     run_stopseq(case, trial, stats)
+                elif case.get("kind") == "fromworker":
+                    run_fromworker(case, trial, stats)
                 else:
                     run_once(case, trial, stats)
                 box["ok"] = True
